@@ -2,6 +2,7 @@ pub mod enc;
 pub mod op;
 pub mod hmap;
 pub mod lang;
+pub mod builtin;
 
 /// One operation per line: `<op> <args…>`; the result is one line of canonical text.
 pub fn dispatch(line: &str) -> String {
@@ -18,6 +19,7 @@ pub fn dispatch(line: &str) -> String {
         "parse" => lang::parse(rest),
         "compile" => lang::compile(rest),
         "eval" => lang::eval(rest),
+        "builtin" => builtin::run(rest),
         _ => format!("bad-op {}", op),
     }
 }
